@@ -27,7 +27,8 @@ PROBES = ["permutation_checked", "onsets_unordered_warning_expected", "handler_r
           "temporal_marker", "cell_with_defect", "row_equality_checked", "row_superset_checked", "na_cells", "no_onset_column",
           "spreadsheet_input_no_header", "tied_or_nonnumeric_onsets", "unit_spelling_variety", "cross_column_repeat",
           "rejected_unit_spelling_kept_as_defect", "delay_lands_on_another_timepoint", "sidecar_object_shared",
-          "shared_sidecar_then_without_extra_definitions", "dataframe_with_non_default_row_labels", "warning_only_cell", "delayed_marker_unit_twin_checked"]
+          "shared_sidecar_then_without_extra_definitions", "dataframe_with_non_default_row_labels", "warning_only_cell", "delayed_marker_unit_twin_checked",
+          "row_without_numeric_onset_judged", "curly_brace_reference_in_sidecar", "xlsx_input"]
 RULE = ("Each run generates an events table (onset column with distinct numeric values; ties / non-numeric in a sub-batch; "
         "1-3 HED-bearing columns: HED column, categorical, value) whose cells are valid or carry one seeded defect (unknown tag, "
         "unbalanced parenthesis, empty element, repeated tag), with Delay/Duration groups in every unit spelling string "
@@ -144,6 +145,11 @@ def generate(run_index, seed, tier):
             sidecar["tt"]["HED"]["defs"] = "(Definition/SCdef, (Blue))"     # the sidecar has a definition of its own
     if use_val:
         sidecar["val"] = {"HED": g.pick(["Label/#", "ID/#", "(Age/#, Face)"])}
+    if use_cat and (use_val or use_hed) and g.chance(0.35):
+        # a curly-brace reference: the referenced column is spliced into the categorical entry
+        ref = g.pick((["val"] if use_val else []) + (["HED"] if use_hed else []))
+        sidecar["tt"]["HED"]["go"] = sidecar["tt"]["HED"]["go"] + ", ({%s}, Star)" % ref
+        sc["ref"] = ref
     n = g.randint(2, 7)
     rows = []
     t = 0.0
@@ -212,6 +218,8 @@ def generate(run_index, seed, tier):
     sc.update(columns=cols, rows=rows, sidecar=sidecar)
     if sc["kind"] == "spreadsheet":
         sc["header"] = g.chance(0.5)
+        # an Excel workbook instead of a TSV file in half of the runs (needs a header row; empty cells are really empty)
+        sc["xlsx"] = sc["header"] and g.chance(0.6)
     perms = []
     for _ in range(g.randint(1, 3)):
         how = g.pick(["swap", "rotate", "shuffle"])
@@ -275,6 +283,17 @@ def _key(i):
 
 def _build(W, sc, rows, sidecar=None):
     pd = W["pd"]
+    if sc["kind"] == "spreadsheet" and sc.get("xlsx"):
+        import openpyxl
+        p = os.path.join(W["base"], "sheet.xlsx")
+        wb = openpyxl.Workbook()
+        ws = wb.active
+        ws.append(list(sc["columns"]))
+        for r in rows:
+            ws.append([(None if c.strip() == "" else c) for c in r])
+        wb.save(p)
+        tagcols = [c for c in sc["columns"] if c in ("tags", "more")]
+        return W["SpreadsheetInput"](p, tag_columns=tagcols, has_column_names=True, name="sheet")
     if sc["kind"] == "spreadsheet":
         p = os.path.join(W["base"], "sheet.tsv")
         with open(p, "w") as f:
@@ -349,6 +368,10 @@ def execute(sc, script=None):
         probe("tied_or_nonnumeric_onsets")
     if sc["kind"] == "spreadsheet" and not sc.get("header"):
         probe("spreadsheet_input_no_header")
+    if sc.get("xlsx"):
+        probe("xlsx_input")
+    if sc.get("ref"):
+        probe("curly_brace_reference_in_sidecar")
     header_adj = 2 if (sc["kind"] == "tabular" or sc.get("header")) else 1
     handler = W["ErrorHandler"](check_for_warnings=True)
 
@@ -536,7 +559,16 @@ def _check_rows(W, sc, inp, issues, header_adj, viol, probe):
                         return
             continue
         if not distinct and "onset" in cols:
-            continue
+            # the file has tied or non-numeric onsets: rows on the time line may be merged with others, but a row WITHOUT a
+            # numeric onset is not on the time line - it is judged on its own like any other row
+            own = sc["rows"][ri][cols.index("onset")]
+            try:
+                float(own)
+                continue
+            except ValueError:
+                if "delay/" in texts[ri].lower() or sc.get("ref"):
+                    continue
+                probe("row_without_numeric_onset_judged")
         txt = texts[ri]
         if not txt:
             want = []
